@@ -34,6 +34,8 @@ type Case struct {
 	Nest     int      `json:"nest"`
 	MType    int      `json:"mtype"`
 	MBody    string   `json:"mbody"`
+	MPath    string   `json:"mpath"` // msg, body "nested": dotted path of the damaged nested field
+	MMode    string   `json:"mmode"` // msg, body "nested": "absent" | "empty"
 	Form     string   `json:"form"`  // env: "nilmap" | "map"
 	Clear    bool     `json:"clear"` // env: the request's clear flag
 	Views    []View   `json:"views"` // env: the views of the request
@@ -55,6 +57,9 @@ func (c *Case) CorKind() string {
 		}
 		return "tokens"
 	case "msg":
+		if c.MBody == "nested" {
+			return "body/nested/" + c.MMode + "/" + c.MPath
+		}
 		return "body/" + c.MBody
 	case "env":
 		k := fmt.Sprintf("env/%s/%dviews", c.Form, len(c.Views))
